@@ -682,18 +682,18 @@ struct DoSingle
     if (o == "del") { v.~V (); }
     else if (o == "pb") { if (c.self) v.push_back (v[static_cast<std::size_t> (c.selfi)]); else v.push_back (ext[0]); }
     else if (o == "pbm") { v.push_back (std::move (ext[0])); }
-    else if (o == "ins") { typename V::iterator r = c.self ? v.insert (v.begin () + c.p, v[static_cast<std::size_t> (c.selfi)]) : v.insert (v.begin () + c.p, ext[0]); out << "i" << (r - v.begin ()); }
-    else if (o == "insm") { typename V::iterator r = v.insert (v.begin () + c.p, std::move (ext[0])); out << "i" << (r - v.begin ()); }
-    else if (o == "insn") { typename V::iterator r = c.self ? v.insert (v.begin () + c.p, static_cast<typename V::size_type> (c.n), v[static_cast<std::size_t> (c.selfi)]) : v.insert (v.begin () + c.p, static_cast<typename V::size_type> (c.n), ext[0]); out << "i" << (r - v.begin ()); }
+    else if (o == "ins") { typename V::iterator r = c.self ? v.insert (v.begin () + c.p, v[static_cast<std::size_t> (c.selfi)]) : v.insert (v.begin () + c.p, ext[0]); out << "i" << static_cast<long> (r - v.begin ()); }
+    else if (o == "insm") { typename V::iterator r = v.insert (v.begin () + c.p, std::move (ext[0])); out << "i" << static_cast<long> (r - v.begin ()); }
+    else if (o == "insn") { typename V::iterator r = c.self ? v.insert (v.begin () + c.p, static_cast<typename V::size_type> (c.n), v[static_cast<std::size_t> (c.selfi)]) : v.insert (v.begin () + c.p, static_cast<typename V::size_type> (c.n), ext[0]); out << "i" << static_cast<long> (r - v.begin ()); }
     else if (o == "insr")
     {
       typename V::iterator r;
       if (c.it == "fw") r = v.insert (v.begin () + c.p, FwdIt (ext.data ()), FwdIt (ext.data () + ext.size ()));
       else r = v.insert (v.begin () + c.p, InIt (k.stream, false), InIt (k.stream, true));
-      out << "i" << (r - v.begin ());
+      out << "i" << static_cast<long> (r - v.begin ());
     }
-    else if (o == "era") { typename V::iterator r = v.erase (v.begin () + c.p); out << "i" << (r - v.begin ()); }
-    else if (o == "erar") { typename V::iterator r = v.erase (v.begin () + c.p, v.begin () + c.q); out << "i" << (r - v.begin ()); }
+    else if (o == "era") { typename V::iterator r = v.erase (v.begin () + c.p); out << "i" << static_cast<long> (r - v.begin ()); }
+    else if (o == "erar") { typename V::iterator r = v.erase (v.begin () + c.p, v.begin () + c.q); out << "i" << static_cast<long> (r - v.begin ()); }
     else if (o == "pop") v.pop_back ();
     else if (o == "clr") v.clear ();
     else if (o == "rsz") v.resize (static_cast<typename V::size_type> (c.n));
@@ -1084,7 +1084,13 @@ static void run_line (const std::string& line_in)
   if (exc == "length" && ! is_ctor)
   {
     Snapshot after = snap (c.x);
-    if (! (after.f.size == before_x.f.size && after.vals == before_x.vals && after.f.cap == before_x.f.cap && after.f.data == before_x.f.data))
+    // a single-pass (input iterator) range cannot be measured before it is consumed: the length is discovered while appending, so
+    // the storage may already have grown; what append rolls back is the value (size and elements); assign / insert of such a range
+    // have overwritten / appended elements before the end is reached (basic guarantee, as for std::vector): invariants only
+    bool single_pass = needs_range && c.it == "in";
+    bool same_value = after.f.size == before_x.f.size && after.vals == before_x.vals;
+    bool same_store = after.f.cap == before_x.f.cap && after.f.data == before_x.f.data;
+    if (single_pass ? (o == "app" && ! same_value) : ! (same_value && same_store))
       wmsg ("C12", o + ": length_error but the container changed");
   }
   // C10 / C04: no reallocation while capacity suffices
